@@ -54,7 +54,7 @@ RULE = (
     "paths) x 12 handshake message types, each cell on a fresh copy of the situation. skip_attacks / "
     "client_flight: one run = one configuration (certificate, suites, group, PSK mode none/selected/declined/"
     "pretended, client-certificate request) x all message sequences up to length 4 (quick; plus a seeded sample of "
-    "lengths 5-6) or up to length 6 (thorough: all 19531 server-flight / 5461 client-flight sequences) x tampered "
+    "lengths 5-6) or up to length 6 (thorough: all 55987 server-flight / 5461 client-flight sequences) x tampered "
     "variants (bad/stale/wrong-key CertificateVerify and Finished) of the legal shapes; a sequence is fed until the "
     "first alert. distinct = distinct (variant, configuration, sampled sequences); non-trivial = at least one "
     "illegal message was fed to a real Context"
